@@ -125,7 +125,7 @@ int main(int argc, char** argv) {
             status d2 = create_storage("afterdestroy"); char v8[8] = "1234567"; status d3 = put<char>(tok, "afterdestroy", "k", v8, 8); std::pair<char*, std::size_t> out{nullptr, 0}; status d4 = get<char>("afterdestroy", "k", out);
             ev("{\"e\":\"destroy_done\",\"cycle\":%ld,\"list_status\":\"%s\",\"listed\":%zu,\"create\":\"%s\",\"put\":\"%s\",\"get\":\"%s\",\"value_ok\":%s}", c, vh::stname(d1), l2.size(), vh::stname(d2), vh::stname(d3), vh::stname(d4), vh::jb(d4 == status::OK && out.first && memcmp(out.first, v8, 8) == 0));
         }
-        if (!keep_open) leave(tok);
+        leave(tok);     // in the cycles that end with open sessions the FIRST slot is idle again: the open ones sit behind an idle slot
         // losing root-creation races: several threads create the first storage of an empty directory (root pointer null) at once,
         // with long names (the loser has built a chain of next-layer borders and a value that nobody else will ever free)
         for (long rr = 0; rr < argi("races", 40); rr++) {
